@@ -14,7 +14,7 @@ PID = 77
 
 
 def consts(maxlen, alphabet=(97, 32, 40, 41, 10, 255), layouts=(52, 44, 41), nthr=(1, 2),
-           ttys=(0, 1025, 34816, 34826, 34939, 1088, 999), longlens=(15, 16), letters=LETTERS):
+           ttys=(0, 1025, 34816, 34826, 34939, 1088, 999, 1083436, 15763711), longlens=(15, 16), letters=LETTERS):
     return {"Alphabet": set(alphabet), "MaxLen": maxlen, "LongLens": set(longlens),
             "Letters": set(letters), "Layouts": set(layouts), "Ttys": set(ttys), "NThreads": set(nthr)}
 
@@ -25,7 +25,8 @@ def build_world(w, inp, tcomms, S):
         if p != w.caller_pid:
             del w.procs[p]
     w.devs = {"/dev/tty1": 1025, "/dev/pts/0": 34816, "/dev/tty": 1280, "/dev/pts/10": 34826,
-              "/dev/pts/123": 34939, "/dev/ttyS0": 1088, "/dev/pts/ptmx": 1282}
+              "/dev/pts/123": 34939, "/dev/ttyS0": 1088, "/dev/pts/ptmx": 1282,
+              "/dev/pts/300": 1083436, "/dev/pts/4095": 15763711, "/dev/pts/44": 34860, "/dev/pts/255": 35071}
     p = w.spawn(PID, comm=bytes(inp["comm"][:15]), state=inp["letter"], ppid=4, start=2200 * S)
     p.utime, p.stime, p.cutime, p.cstime = 11 * S, 12 * S, 13 * S, 14 * S
     p.processor, p.blkio, p.tty_nr = 3, 42 * S, inp["tty"]
@@ -124,7 +125,7 @@ def rand_chunk(job):
         ln = rnd.choice([0, 1, 2, 5, 8, 14, 15])
         comm = [rnd.choice([97, 98, 32, 40, 41, 10, 0x80, 0xc3, 0xa9, 0xff, 58, 9]) for _ in range(ln)]
         inp = {"comm": comm, "letter": rnd.choice(LETTERS), "nf": rnd.choice([52, 44, 41]),
-               "tty": rnd.choice([0, 1025, 34816, 34826, 34939, 1088, 999]), "nthr": rnd.choice([1, 2, 3])}
+               "tty": rnd.choice([0, 1025, 34816, 34826, 34939, 1088, 999, 1083436, 15763711]), "nthr": rnd.choice([1, 2, 3])}
         nthr = 1 if inp["letter"] == "Z" else inp["nthr"]
         tcomms = [comm[:15]] + [[116, 41, 32, 40, 48 + k] for k in range(2, nthr + 1)]
         build_world(w, inp, tcomms, 1)
